@@ -76,7 +76,7 @@ func (r *pagedRunner) Step(t []string) string {
 		}
 		r.s.BatchGrowSet(ls[0], ls[1])
 		return "ok"
-	case "bs":
+	case "bs", "bsx":
 		ls, ok := lists(t[1:])
 		if !ok || len(ls) != 2 {
 			return "bad-op"
@@ -279,9 +279,9 @@ func pagedGen(rng *proto.RNG, tier string, shard, nshards int, w *bufio.Writer) 
 			case 6:
 				lines = append(lines, fmt.Sprintf("bgs [%d %d] [1 2]", rng.Range(-1, 5), rng.Range(-1, 5)))
 			case 7:
-				lines = append(lines, fmt.Sprintf("bs [%d] [1 2]", rng.Range(0, 3)), "grow []", fmt.Sprintf("grow [%d]", rng.Range(-3, 1)))
+				lines = append(lines, fmt.Sprintf("bsx [%d] [1 2]", rng.Range(0, 3)), "grow []", fmt.Sprintf("grow [%d]", rng.Range(-3, 1)))
 			case 8:
-				lines = append(lines, fmt.Sprintf("bs [%d %d] [3 4]", rng.Range(-1, 6), rng.Range(-1, 6)))
+				lines = append(lines, fmt.Sprintf("bsx [%d %d] [3 4]", rng.Range(-1, 6), rng.Range(-1, 6)))
 			}
 			lines = append(lines, "len")
 		}
